@@ -33,6 +33,9 @@ CHECKS = {
  "C05": ("bounded symbolic execution of every Op.apply / JSONPatch.apply on a symbolic document vs an RFC 6902 section 4 reference",
          "One condition per operation kind x target kind (symbolic array index from 0 to len+2, '-', existing/new/digit-named member, root, missing or scalar parent, nested array) and per move/copy source x target pair: result as JSON value or error kind equals the reference; test equality decided with symbolic null/bool/int values on both sides; copy independence; sampled sequences of 2-3 operations.",
          "pointers passed as token tuples; indices >= 0; fixed document spine with symbolic length and leaves"),
+ "C14": ("bounded symbolic execution of JSONPointer parse/print/from_parts/join/parent/is_relative_to/eq/hash vs the RFC 6901 token model",
+         "Parse-print identity and equality-iff-token-sequences-equal on symbolic RFC 6901 text (decoding off) and on token lists over Sigma through from_parts, printing and re-parsing (decoding on and off); join and / with escaped tokens: spelling, parent, is_relative_to and resolve-then-step; join/parent chains; leading-slash replacement.",
+         "Sigma / piece pools where the unicode-escape codec (always on in / and join) is a C boundary"),
 }
 NA = {
  "C18": "process-level I/O (argparse FileType, stdin/stdout, exit status, stderr text): CrossHair's audit wall blocks file access, file contents pass through C json, and what remains is a finite option table whose exploration would be enumeration of concrete runs - no role for a solver",
